@@ -16,6 +16,7 @@ import (
 	"strings"
 	"sync"
 	"sync/atomic"
+	"syscall"
 	"time"
 
 	hms "github.com/smarthome-go/homescript/v3/homescript"
@@ -43,7 +44,7 @@ const StepBound = 10000
 func (c10) Info(tier string) fw.Info {
 	return fw.Info{
 		Level: "exploration",
-		Rule: "for each of the listed programs (straight-line, empty and working infinite loops, recursion, try/catch with throws, blocking builtin, 1-4 spawned cores, a core failing; multi-module programs: work in the global initialisers of imported modules - one level, nested, diamond, an initialiser failing by itself (interpreter only) -, the same / different / several builtins imported by several modules, the loop inside an imported function, cores spawned on imported functions) and each backend, the context is cancelled at the k-th poll for every k in 1..Kmax (VM: every k; interpreter: every k up to 60, then strides) by the host's cancel(); the same programs and backends again with the context ended the other ways a host ends it - deadline expired (Err()=DeadlineExceeded; quick: a ladder of k = 1,2,3,5,8,.. kmax, kmax+1 and three seed-chosen k, thorough: every k), cancel(cause) and deadline-with-cause (every third rung); a poll is a call of Done() or Err(); " +
+		Rule: "for each of the listed programs (straight-line, empty and working infinite loops, recursion, try/catch with throws, blocking builtin, 1-4 spawned cores, a core failing; multi-module programs: work in the global initialisers of imported modules - one level, nested, diamond, an initialiser failing by itself (interpreter only) -, the same / different / several builtins imported by several modules, the loop inside an imported function, cores spawned on imported functions; fatal errors - index, division by zero, uncaught throw, unwrap of none, call stack overflow - raised while functions with names of 5/10/14/18/27 characters are on the call stack: direct, chains, recursion, function literals, inside try, in functions of a module with a long name, in a spawned core next to finite and next to never-ending cores; builtin members that loop over their receiver - sort on int/float/str lists in nine initial orders, contains, join, concat, insert, remove, push_front, pop_front, to_json, split, replace, repeat, substring, compare_lev, parse_json, rev, diff, to_range, iteration over lists, strings and reversed ranges - finite, inside infinite loops and on several cores; per seed: random-list sort programs and fatal-error programs with random name lengths 8..48, text carried in the payload) and each backend, the context is cancelled at the k-th poll for every k in 1..Kmax (VM: every k; interpreter: every k up to 60, then strides) by the host's cancel(); the same programs and backends again with the context ended the other ways a host ends it - deadline expired (Err()=DeadlineExceeded; quick: a ladder of k = 1,2,3,5,8,.. kmax, kmax+1 and three seed-chosen k, thorough: every k), cancel(cause) and deadline-with-cause (every third rung); a poll is a call of Done() or Err(); " +
 			"oracle: wait/run returns a termination interrupt or the program's own outcome (known from an uncancelled run when the program is finite); every core stops within B=10000 steps after the cancelling poll (step hook); after return no goroutine of the run has a frame in Core.Run (stack samples until 5 identical ones); the host calls (NewVM, Wait) return: a run in which no core steps any more and every goroutine inside the VM is blocked on a lock or channel (the wait idling between polls) is cancelled by the monitor if its context is still alive and refutes the property if it stays in that state; race log empty. " +
 			"non-trivial = the context actually ended during the run; distinct = (program, backend, end mode, k)",
 		Assumptions: []string{
@@ -51,7 +52,8 @@ func (c10) Info(tier string) fw.Info {
 			"a host call (NewVM, Wait) that neither returns nor steps is decided by goroutine state samples (50 consecutive consistent snapshots in which every goroutine inside the VM runtime is blocked on a lock or channel, the wait idling in its poll sleep, and the step counter does not move), otherwise by the per-case watchdog (inconclusive)",
 		},
 		Exhaustive:   true,
-		CaseTimeoutS: 40,
+		// a case takes milliseconds; a tree whose Go code spins between two polls costs this period per case
+		CaseTimeoutS: 30,
 		BatchSize:    60,
 		Race:         true,
 	}
@@ -70,6 +72,13 @@ type program struct {
 	// treeOnly: a module initialiser of the program fails by itself; runtime.NewVM reports that by
 	// panicking, which has nothing to do with cancellation, so the program only runs on the interpreter
 	treeOnly bool
+	// sparseTree: the quick tier cancels the interpreter run at a ladder of polls (sampleKs) instead of
+	// at every poll (families whose subject is a mechanism of the VM; thorough: every poll)
+	sparseTree bool
+	// ownFails (with infinite): the program never finishes except by the fatal error of one of its
+	// cores, which the wait then returns - that failure is "the program's own outcome if it finished
+	// first"; after the context ended the wait returns a termination interrupt or that failure
+	ownFails bool
 }
 
 // sources: all modules of the program, the entry module under the name "main".
@@ -101,7 +110,7 @@ func (p program) render() string {
 
 // programs: the single-module programs followed by the multi-module ones (modules.go). Payloads
 // refer to programs by index or name: only ever append.
-var programs = append(append([]program{}, singlePrograms...), modulePrograms...)
+var programs = append(append(append(append([]program{}, singlePrograms...), modulePrograms...), fatalPrograms...), memberPrograms...)
 
 var singlePrograms = []program{
 	{name: "straight", src: `fn main() { let a = 1; let b = a + 2; println(b); println(b * 2); }`, kmaxVM: 6, kmaxTree: 40},
@@ -143,6 +152,21 @@ type Payload struct {
 	ArmEarly bool `json:"arm_early,omitempty"`
 	// End: how the context ends at poll K (one of endModes; empty = cancel).
 	End string `json:"end,omitempty"`
+	// Src (generated programs, families.go): the payload carries the program itself - entry module,
+	// further modules, whether it runs for ever, whether it spawns cores; Name is then only a label.
+	Src      string            `json:"src,omitempty"`
+	Mods     map[string]string `json:"mods,omitempty"`
+	Infinite bool              `json:"infinite,omitempty"`
+	Multi    bool              `json:"multi,omitempty"`
+	OwnFails bool              `json:"own_fails,omitempty"`
+}
+
+// programOf: the program a payload refers to.
+func programOf(p Payload) program {
+	if p.Src != "" {
+		return genProgram(p)
+	}
+	return programs[resolve(p)]
 }
 
 func (p Payload) end() string {
@@ -218,6 +242,7 @@ func endCases(tier string, seed uint64) []fw.Case {
 
 func (c10) Cases(tier string, seed uint64) []fw.Case {
 	var cases []fw.Case
+	ladderRng := fw.NewRng(seed ^ 0xC105BA45E)
 	for pi, p := range programs {
 		for k := 1; k <= p.kmaxVM+1 && !p.treeOnly; k++ {
 			cases = append(cases, fw.MkCase(fmt.Sprintf("c10-%s-vm-%d", p.name, k), "cancel", Payload{Prog: pi, Backend: "vm", K: int64(k)}))
@@ -225,8 +250,17 @@ func (c10) Cases(tier string, seed uint64) []fw.Case {
 		if p.multi {
 			continue
 		}
+		onLadder := map[int]bool{}
+		if p.sparseTree && tier != "thorough" {
+			for _, k := range sampleKs(p.kmaxTree, ladderRng.Fork()) {
+				onLadder[k] = true
+			}
+		}
 		for k := 1; k <= p.kmaxTree+1; k++ {
 			if k > 60 && k%7 != 0 && tier != "thorough" {
+				continue
+			}
+			if len(onLadder) > 0 && !onLadder[k] {
 				continue
 			}
 			tags := []string{}
@@ -250,6 +284,7 @@ func (c10) Cases(tier string, seed uint64) []fw.Case {
 		}
 	}
 	cases = append(cases, endCases(tier, seed)...)
+	cases = append(cases, genCases(tier, seed)...)
 	return cases
 }
 
@@ -515,8 +550,7 @@ func stableCoreGoroutines() (n int, dump string, stable bool) {
 func (c10) Run(c fw.Case) fw.Result {
 	var p Payload
 	fw.Decode(c, &p)
-	p.Prog = resolve(p)
-	pg := programs[p.Prog]
+	pg := programOf(p)
 	src := pg.sources()
 	res := fw.Result{Verdict: fw.Held, Cover: []string{"prog:" + pg.name, "backend:" + p.Backend, "end:" + p.end(), p.Backend + "/end:" + p.end()}}
 	ao := drive.Analyze(src, "main", true)
@@ -530,46 +564,197 @@ func (c10) Run(c fw.Case) fw.Result {
 	return runVM(p, pg, ao, src, res)
 }
 
-func runTree(p Payload, pg program, ao drive.AnalyzeOut, src drive.Sources, res fw.Result) fw.Result {
-	// own outcome of finite programs
-	var own drive.Outcome
-	if !pg.infinite {
-		own = drive.RunTree(ao.Modules, src, "main", drive.TreeOpts{StepBudget: 5_000_000, CallLimit: 100}).Outcome
+// spinCPU: processor time (seconds, all threads of the worker) that may pass without a single step
+// of the program before the monitor acts: first it ends the context, then - another spinCPU later -
+// it gives the verdict. A step takes microseconds; Go code of the repository that runs between two
+// steps (a builtin member, the unwinding of a call stack) is bounded by the size of its data, here a
+// few dozen elements. Measured in the worker's own processor time, which machine load does not
+// inflate (a starved worker does not accumulate it), never in wall-clock time.
+const spinCPU = 2.0
+
+// processCPU: processor time (user + system, all threads) this process has consumed so far.
+func processCPU() float64 {
+	var ru syscall.Rusage
+	if syscall.Getrusage(syscall.RUSAGE_SELF, &ru) != nil {
+		return 0
 	}
-	cc := newCountingCtxMode(p.K, p.end())
-	cc.arm()
-	var after, total int64
-	exceeded := false
+	return float64(ru.Utime.Sec+ru.Stime.Sec) + float64(ru.Utime.Usec+ru.Stime.Usec)/1e6
+}
+
+const repoPkg = "smarthome-go/homescript/v3/homescript/"
+
+// repoRunning: the innermost repository frames of the goroutines that are running or runnable inside
+// the repository's code ("" if there is none: everything is blocked, asleep or outside).
+func repoRunning() string {
+	buf := make([]byte, 1<<20)
+	m := goruntime.Stack(buf, true)
+	var where []string
+	seen := map[string]bool{}
+	for _, g := range strings.Split(string(buf[:m]), "\n\n") {
+		if !strings.Contains(g, repoPkg) {
+			continue
+		}
+		lines := strings.Split(g, "\n")
+		if !strings.Contains(lines[0], "[running") && !strings.Contains(lines[0], "[runnable") {
+			continue
+		}
+		if f := innermostFrame(lines, repoPkg); f != "" && !seen[f] {
+			seen[f] = true
+			where = append(where, f)
+		}
+	}
+	sort.Strings(where)
+	return strings.Join(where, " | ")
+}
+
+// spinWatch decides "the program executes no step any more, yet Go code of the repository keeps a
+// processor busy" from the step counter, the worker's processor time and goroutine dumps.
+type spinWatch struct {
+	steps int64
+	cpu   float64
+}
+
+// check is called periodically with the current step count; it returns the repository frames that
+// are running when no step was executed during spinCPU seconds of processor time ("" otherwise).
+func (w *spinWatch) check(steps int64) string {
+	now := processCPU()
+	if steps != w.steps || w.cpu == 0 {
+		w.steps, w.cpu = steps, now
+		return ""
+	}
+	if now-w.cpu < spinCPU {
+		return ""
+	}
+	w.cpu = now
+	a := repoRunning()
+	if a == "" {
+		return ""
+	}
+	goruntime.Gosched()
+	if b := repoRunning(); b != a {
+		return ""
+	}
+	return a
+}
+
+// spunRefs: programs whose uncancelled reference run was found spinning in this worker process
+// (key backend/name -> the verdict text). The reference run does not depend on the cancellation
+// point, so the other cases of the program in this worker report the same observation instead of
+// repeating it (every repetition leaves another goroutine spinning in the worker).
+var spunRefs = map[string]string{}
+
+// treeRun is what the host saw of one interpreter run.
+type treeRun struct {
+	out      drive.Outcome
+	exceeded bool   // more than StepBound steps after the context ended
+	spinning string // the run did not return: repository frames that kept running without a step
+	after    int64
+}
+
+// hostRunTree plays the host of an interpreter run: homescript.Run on its own goroutine, so that a run
+// which never returns can be observed. budget > 0: step budget of an uncancelled reference run.
+func hostRunTree(ao drive.AnalyzeOut, src drive.Sources, cc *countingCtx, budget int64) treeRun {
+	var total, after atomic.Int64
+	var exceeded atomic.Bool
 	interpreter.VerifStep = func() {
-		total++
-		if total == preCancelSteps && !cc.closed.Load() {
+		n := total.Add(1)
+		if budget > 0 {
+			if n > budget {
+				panic(fw.StepBudgetMsg)
+			}
+			return
+		}
+		if n == preCancelSteps && !cc.closed.Load() {
 			// the k-th poll was not reached within the step budget (the code may not poll at all):
 			// the host cancels asynchronously, "at any moment of the run"
 			cc.endNow()
 		}
 		if cc.closed.Load() {
-			after++
-			if after > StepBound {
-				exceeded = true
+			if after.Add(1) > StepBound {
+				exceeded.Store(true)
 				panic(fw.StepBudgetMsg)
 			}
 		}
 	}
-	defer func() { interpreter.VerifStep = nil }()
-	var out drive.Outcome
-	func() {
+	done := make(chan drive.Outcome, 1)
+	go func() {
+		var out drive.Outcome
 		defer func() {
 			if r := recover(); r != nil {
 				out = drive.Outcome{Class: "go-panic", Message: fmt.Sprint(r)}
+				if r == any(fw.StepBudgetMsg) && budget > 0 {
+					out = drive.Outcome{Class: "step-budget", Message: fw.StepBudgetMsg}
+				}
 			}
+			done <- out
 		}()
 		// not drive.RunTree: it installs its own step hook
-		tr := runTreeRaw(ao, src, cc, 100)
-		out = tr
+		out = runTreeRaw(ao, src, cc, 100)
 	}()
+	var w spinWatch
+	for i := 0; ; i++ {
+		select {
+		case out := <-done:
+			interpreter.VerifStep = nil
+			return treeRun{out: out, exceeded: exceeded.Load(), after: after.Load()}
+		default:
+		}
+		if i < 200 {
+			goruntime.Gosched()
+		} else {
+			time.Sleep(200 * time.Microsecond)
+		}
+		if i%50 != 49 {
+			continue
+		}
+		where := w.check(total.Load())
+		if where == "" {
+			continue
+		}
+		if !cc.closed.Load() {
+			cc.endNow()
+			continue
+		}
+		// the goroutine stays behind (it never calls the step hook again)
+		return treeRun{spinning: where, exceeded: exceeded.Load(), after: after.Load()}
+	}
+}
+
+func runTree(p Payload, pg program, ao drive.AnalyzeOut, src drive.Sources, res fw.Result) fw.Result {
+	// own outcome of finite programs: a run whose context never ends by itself (only the monitor ends
+	// it, when the run spins)
+	var own drive.Outcome
+	if !pg.infinite {
+		if why, ok := spunRefs["tree/"+pg.name]; ok {
+			res.Nontrivial = true
+			res.Verdict, res.Sig, res.Why = fw.Violated, "tree:run-never-returns", why
+			return res
+		}
+		rc := newCountingCtx(1 << 60)
+		rc.arm()
+		ref := hostRunTree(ao, src, rc, 5_000_000)
+		if ref.spinning != "" {
+			why := fmt.Sprintf("homescript.Run does not return: the interpreter executes no step any more while Go code of the repository keeps running (%s), for more than %.0f s of processor time before and again after the host ended the context (program %s, run without a cancellation point; the context %s)", ref.spinning, spinCPU, pg.name, rc.describe())
+			spunRefs["tree/"+pg.name] = why + " [observed on the uncancelled run of the same program earlier in this worker]"
+			res.Nontrivial = true
+			res.Verdict, res.Sig, res.Why = fw.Violated, "tree:run-never-returns", why
+			return res
+		}
+		own = ref.out
+	}
+	cc := newCountingCtxMode(p.K, p.end())
+	cc.arm()
+	tr := hostRunTree(ao, src, cc, 0)
+	out, exceeded, after := tr.out, tr.exceeded, tr.after
 	res.Nontrivial = cc.closed.Load()
-	res.Obs = map[string]int64{"polls": cc.polls, "steps_after_cancel": after}
+	cc.mu.Lock()
+	polls := cc.polls
+	cc.mu.Unlock()
+	res.Obs = map[string]int64{"polls": polls, "steps_after_cancel": after}
 	switch {
+	case tr.spinning != "":
+		res.Verdict, res.Sig = fw.Violated, "tree:run-never-returns"
+		res.Why = fmt.Sprintf("homescript.Run does not return: the interpreter executes no step any more while Go code of the repository keeps running (%s), for more than %.0f s of processor time after the context %s (program %s)", tr.spinning, spinCPU, cc.describe(), pg.name)
 	case exceeded:
 		res.Verdict, res.Sig = fw.Violated, "tree:no-stop-within-bound"
 		res.Why = fmt.Sprintf("interpreter executed more than %d steps after the context %s (program %s)", StepBound, cc.describe(), pg.name)
@@ -598,6 +783,11 @@ func runVM(p Payload, pg program, ao drive.AnalyzeOut, src drive.Sources, res fw
 	}
 	limits := runtime.CoreLimits{CallStackMaxSize: 100, StackMaxSize: 500, MaxMemorySize: 10000}
 	var own drive.Outcome
+	if why, ok := spunRefs["vm/"+pg.name]; ok && !pg.infinite {
+		res.Nontrivial = true
+		res.Verdict, res.Sig, res.Why = fw.Violated, "vm:wait-never-returns", why
+		return res
+	}
 	if !pg.infinite {
 		// uncancelled reference run with the same (once installed) hooks
 		installHooks()
@@ -618,6 +808,9 @@ func runVM(p Payload, pg program, ao drive.AnalyzeOut, src drive.Sources, res fw
 			res.Nontrivial = true
 			res.Verdict, res.Sig = fw.Violated, "vm:wait-never-returns"
 			res.Why = fmt.Sprintf("%s (program %s, run without a cancellation point; the context %s)", own.Message, pg.name, rc.describe())
+			if ref.spinning {
+				spunRefs["vm/"+pg.name] = res.Why + " [observed on the uncancelled run of the same program earlier in this worker]"
+			}
 			return res
 		}
 		stableCoreGoroutines()
@@ -659,7 +852,7 @@ func runVM(p Payload, pg program, ao drive.AnalyzeOut, src drive.Sources, res fw
 	case out.Class == "deadlock":
 		fail("vm:wait-never-returns", fmt.Sprintf("%s (program %s, context %s)", out.Message, pg.name, cc.describe()))
 		return res
-	case cc.closed.Load() && out.Class != "terminate" && (pg.infinite || (!pg.multi && !sameOutcome(out, own)) || (pg.multi && out.Class != own.Class)):
+	case cc.closed.Load() && out.Class != "terminate" && ((pg.infinite && !(pg.ownFails && out.Class == "fatal")) || (!pg.infinite && !pg.multi && !sameOutcome(out, own)) || (!pg.infinite && pg.multi && out.Class != own.Class)):
 		fail("vm:wrong-outcome:"+out.Class, fmt.Sprintf("after the context %s the wait returned %s (own outcome %s) for program %s", cc.describe(), out, own, pg.name))
 	case !cc.closed.Load() && !pg.infinite && out.Class != own.Class:
 		fail("vm:outcome-changed-without-cancel", fmt.Sprintf("without cancellation the wait returned %s, expected %s", out, own))
@@ -681,6 +874,7 @@ func runVM(p Payload, pg program, ao drive.AnalyzeOut, src drive.Sources, res fw
 type hostResult struct {
 	out        drive.Outcome
 	newVMPanic string
+	spinning   bool // out.Class "deadlock" because Go code of the repository spins without a step
 }
 
 // wedgeSamples: consecutive goroutine-state samples in which the VM must be wedged before the monitor
@@ -722,6 +916,7 @@ func hostRun(prog compiler.CompileOutput, exec drive.VMExec, ctx *context.Contex
 		done <- r
 	}()
 	wedged, lastSteps := 0, int64(-1)
+	var spin spinWatch
 	for i := 0; ; i++ {
 		select {
 		case r := <-done:
@@ -729,6 +924,16 @@ func hostRun(prog compiler.CompileOutput, exec drive.VMExec, ctx *context.Contex
 		default:
 		}
 		time.Sleep(200 * time.Microsecond)
+		if i%50 == 49 {
+			// no core steps, nothing is blocked, but Go code of the repository keeps a processor busy
+			if where := spin.check(st.steps.Load()); where != "" {
+				if cc != nil && !cc.closed.Load() {
+					cc.endNow()
+				} else {
+					return hostResult{spinning: true, out: drive.Outcome{Class: "deadlock", Message: fmt.Sprintf("%s does not return: no core executes a step any more while Go code of the repository keeps running (%s), for more than %.0f s of processor time before and again after the context was ended", phase.Load(), where, spinCPU)}}
+				}
+			}
+		}
 		if i%10 != 9 && wedged == 0 {
 			continue
 		}
@@ -817,7 +1022,7 @@ func innermostFrame(lines []string, rt string) string {
 func (c10) OnCrash(c fw.Case, cr fw.Crash) fw.Result {
 	var p Payload
 	fw.Decode(c, &p)
-	pg := programs[resolve(p)]
+	pg := programOf(p)
 	switch cr.Kind {
 	case "watchdog", "killed":
 		return fw.Result{Verdict: fw.Inconclusive, Why: fmt.Sprintf("%s: %s (program %s, backend %s, k=%d, end=%s)", cr.Kind, cr.Message, pg.name, p.Backend, p.K, p.end())}
